@@ -238,6 +238,6 @@ pub fn def() -> PropertyDef {
                bytes_written = sink length, duration = largest presentation end +-1 tick. Non-trivial = (>=2 finish attempts or a call after finish) \
                and >= 2 accepted frames",
         assumptions: &["a lone sample's duration is unknowable: its end may be pts+0 or pts+1 tick"],
-        subs: vec![Box::new(PSub { name: "finalisation", quick: 40000, thorough: 1200000, strat, eval })],
+        subs: vec![Box::new(PSub { name: "finalisation", quick: 40000, thorough: 1200000, strat, eval }), Box::new(LSub { name: "bursts_and_long", cases: burst_cases, eval, note: BURST_NOTE })],
     }
 }
